@@ -14,6 +14,7 @@ def tasks(tier, seed):
         add("linear", (d, h, "generic"), f"linear[{d}x{h}]")
         add("linear", (d, h, "zero_row"), f"linear[{d}x{h},zero_row]")
         add("linear", (d, h, "alpha0"), f"linear[{d}x{h},alpha0]")
+        add("linear", (d, h, "zero_row_alpha0"), f"linear[{d}x{h},zero_row,alpha0]")
         if h >= 2:
             add("linear", (d, h, "tie"), f"linear[{d}x{h},tie]")
     dmax = 3 if tier == "quick" else 4
@@ -22,6 +23,8 @@ def tasks(tier, seed):
             add("group_linear", (d, 2 if d < 4 else 1, part), f"group_linear[d={d},{part}]")
     add("group_linear", (3, 2, [[0, 2], [1]], 0), "group_linear[d=3,zero group]")
     add("group_linear", (2, 1, [[0, 1]], 0), "group_linear[d=2,zero group]")
+    add("group_linear", (3, 2, [[0, 2], [1]], 0, True), "group_linear[d=3,zero group,alpha0]")
+    add("group_linear", (3, 1, [[0], [1, 2]], None, True), "group_linear[d=3,alpha0]")
     hier = [(1, 1), (2, 1), (1, 2), (2, 2)] if tier == "quick" else [(1, 1), (2, 1), (1, 2), (2, 2), (3, 2), (1, 3), (2, 3)]
     for k, h in hier:
         add("hier", (k, h, "generic", 1), f"hier[k={k},h={h}]")
